@@ -56,6 +56,9 @@ def step (s : St) (w : List String) : St × String :=
   | ["rmw-split", v, f] => (s, if rmwSplits.contains (v, f) then "ok" else "table-mismatch")
   | ["rmw-split-end", n] =>
     (s, if n.toNat? == some rmwSplits.length then "ok" else s!"table-mismatch expected={rmwSplits.length}")
+  | ["loopvar", f, v] => (s, if loopvarCaptures.contains (f, v) then "ok" else "table-mismatch")
+  | ["loopvar-end", n] =>
+    (s, if n.toNat? == some loopvarCaptures.length then "ok" else s!"table-mismatch expected={loopvarCaptures.length}")
   | ["lock-leak", f, l] => (s, if lockLeaks.contains (f, l) then "ok" else "table-mismatch")
   | ["lock-leak-end", n] =>
     (s, if n.toNat? == some lockLeaks.length then "ok" else s!"table-mismatch expected={lockLeaks.length}")
